@@ -56,24 +56,25 @@ def ok4 (b c : Nat) : Bool :=
   (0xF1 ≤ b && b ≤ 0xF3 && 0x80 ≤ c && c ≤ 0xBF) ||
   (b == 0xF4 && 0x80 ≤ c && c ≤ 0x8F)
 
-/-- `String::from_utf8_lossy(bs)` as UTF-8 bytes: every maximal invalid subpart becomes one U+FFFD -/
-def lossy : Bytes → Bytes
-  | [] => []
+/-- the first chunk of `Utf8Chunks`: how many bytes it spans (≥ 1 on a non-empty input) and
+    whether it is a valid character (otherwise: a maximal invalid subpart) -/
+def chunk : Bytes → Nat × Bool
+  | [] => (0, true)
   | b :: rest =>
-    if b < 0x80 then b :: lossy rest
+    if b < 0x80 then (1, true)
     else if 0xC2 ≤ b && b ≤ 0xDF then
       match rest with
-      | c :: r => if isCont c then b :: c :: lossy r else fffd ++ lossy (c :: r)
-      | [] => fffd
+      | c :: _ => if isCont c then (2, true) else (1, false)
+      | [] => (1, false)
     else if 0xE0 ≤ b && b ≤ 0xEF then
       match rest with
       | c :: r =>
         if ok3 b c then
           match r with
-          | d :: r' => if isCont d then b :: c :: d :: lossy r' else fffd ++ lossy (d :: r')
-          | [] => fffd
-        else fffd ++ lossy (c :: r)
-      | [] => fffd
+          | d :: _ => if isCont d then (3, true) else (2, false)
+          | [] => (2, false)
+        else (1, false)
+      | [] => (1, false)
     else if 0xF0 ≤ b && b ≤ 0xF4 then
       match rest with
       | c :: r =>
@@ -82,40 +83,68 @@ def lossy : Bytes → Bytes
           | d :: r' =>
             if isCont d then
               match r' with
-              | e :: r'' => if isCont e then b :: c :: d :: e :: lossy r'' else fffd ++ lossy (e :: r'')
-              | [] => fffd
-            else fffd ++ lossy (d :: r')
-          | [] => fffd
-        else fffd ++ lossy (c :: r)
-      | [] => fffd
-    else fffd ++ lossy rest
+              | e :: _ => if isCont e then (4, true) else (3, false)
+              | [] => (3, false)
+            else (2, false)
+          | [] => (2, false)
+        else (1, false)
+      | [] => (1, false)
+    else (1, false)
+
+def lossyF : Nat → Bytes → Bytes
+  | 0, _ => []
+  | _ + 1, [] => []
+  | fuel + 1, b :: rest =>
+    let c := chunk (b :: rest)
+    (if c.2 then (b :: rest).take c.1 else fffd) ++ lossyF fuel ((b :: rest).drop c.1)
+
+/-- `String::from_utf8_lossy(bs)` as UTF-8 bytes: every maximal invalid subpart becomes one U+FFFD -/
+def lossy (bs : Bytes) : Bytes := lossyF bs.length bs
 
 /-! ## `str::to_uppercase` / `to_lowercase` (on valid UTF-8 bytes) -/
 
 def upperAscii (b : Nat) : Nat := if 97 ≤ b && b ≤ 122 then b - 32 else b
 def lowerAscii (b : Nat) : Nat := if 65 ≤ b && b ≤ 90 then b + 32 else b
 
-/-- replace the non-ASCII characters whose `to_uppercase` contains an ASCII letter by that expansion -/
-def upperSpecial : Bytes → Bytes
-  | [] => []
-  | 0xC3 :: 0x9F :: r => 83 :: 83 :: upperSpecial r                 -- ß  → SS
-  | 0xC4 :: 0xB1 :: r => 73 :: upperSpecial r                       -- ı  → I
-  | 0xC5 :: 0x89 :: r => 0xCA :: 0xBC :: 78 :: upperSpecial r       -- ŉ  → ʼN
-  | 0xC5 :: 0xBF :: r => 83 :: upperSpecial r                       -- ſ  → S
-  | 0xC7 :: 0xB0 :: r => 74 :: 0xCC :: 0x8C :: upperSpecial r       -- ǰ  → J̌
-  | 0xE1 :: 0xBA :: 0x96 :: r => 72 :: 0xCC :: 0xB1 :: upperSpecial r   -- ẖ → H̱
-  | 0xE1 :: 0xBA :: 0x97 :: r => 84 :: 0xCC :: 0x88 :: upperSpecial r   -- ẗ → T̈
-  | 0xE1 :: 0xBA :: 0x98 :: r => 87 :: 0xCC :: 0x8A :: upperSpecial r   -- ẘ → W̊
-  | 0xE1 :: 0xBA :: 0x99 :: r => 89 :: 0xCC :: 0x8A :: upperSpecial r   -- ẙ → Y̊
-  | 0xE1 :: 0xBA :: 0x9A :: r => 65 :: 0xCA :: 0xBE :: upperSpecial r   -- ẚ → Aʾ
-  | 0xEF :: 0xAC :: 0x80 :: r => 70 :: 70 :: upperSpecial r         -- ﬀ → FF
-  | 0xEF :: 0xAC :: 0x81 :: r => 70 :: 73 :: upperSpecial r         -- ﬁ → FI
-  | 0xEF :: 0xAC :: 0x82 :: r => 70 :: 76 :: upperSpecial r         -- ﬂ → FL
-  | 0xEF :: 0xAC :: 0x83 :: r => 70 :: 70 :: 73 :: upperSpecial r   -- ﬃ → FFI
-  | 0xEF :: 0xAC :: 0x84 :: r => 70 :: 70 :: 76 :: upperSpecial r   -- ﬄ → FFL
-  | 0xEF :: 0xAC :: 0x85 :: r => 83 :: 84 :: upperSpecial r         -- ﬅ → ST
-  | 0xEF :: 0xAC :: 0x86 :: r => 83 :: 84 :: upperSpecial r         -- ﬆ → ST
-  | b :: r => b :: upperSpecial r
+/-- the non-ASCII characters whose `to_uppercase` contains an ASCII letter, with that expansion -/
+def specials : List (Bytes × Bytes) :=
+  [ ([0xC3, 0x9F], [83, 83]),                 -- ß  → SS
+    ([0xC4, 0xB1], [73]),                     -- ı  → I
+    ([0xC5, 0x89], [0xCA, 0xBC, 78]),         -- ŉ  → ʼN
+    ([0xC5, 0xBF], [83]),                     -- ſ  → S
+    ([0xC7, 0xB0], [74, 0xCC, 0x8C]),         -- ǰ  → J̌
+    ([0xE1, 0xBA, 0x96], [72, 0xCC, 0xB1]),   -- ẖ → H̱
+    ([0xE1, 0xBA, 0x97], [84, 0xCC, 0x88]),   -- ẗ → T̈
+    ([0xE1, 0xBA, 0x98], [87, 0xCC, 0x8A]),   -- ẘ → W̊
+    ([0xE1, 0xBA, 0x99], [89, 0xCC, 0x8A]),   -- ẙ → Y̊
+    ([0xE1, 0xBA, 0x9A], [65, 0xCA, 0xBE]),   -- ẚ → Aʾ
+    ([0xEF, 0xAC, 0x80], [70, 70]),           -- ﬀ → FF
+    ([0xEF, 0xAC, 0x81], [70, 73]),           -- ﬁ → FI
+    ([0xEF, 0xAC, 0x82], [70, 76]),           -- ﬂ → FL
+    ([0xEF, 0xAC, 0x83], [70, 70, 73]),       -- ﬃ → FFI
+    ([0xEF, 0xAC, 0x84], [70, 70, 76]),       -- ﬄ → FFL
+    ([0xEF, 0xAC, 0x85], [83, 84]),           -- ﬅ → ST
+    ([0xEF, 0xAC, 0x86], [83, 84]) ]          -- ﬆ → ST
+
+def isPrefix : Bytes → Bytes → Bool
+  | [], _ => true
+  | _ :: _, [] => false
+  | p :: ps, x :: xs => p == x && isPrefix ps xs
+
+def findSpecial : List (Bytes × Bytes) → Bytes → Option (Bytes × Bytes)
+  | [], _ => none
+  | (p, e) :: t, x => if isPrefix p x then some (p, e) else findSpecial t x
+
+def upperSpecialF : Nat → Bytes → Bytes
+  | 0, _ => []
+  | _ + 1, [] => []
+  | fuel + 1, b :: r =>
+    match findSpecial specials (b :: r) with
+    | some (p, e) => e ++ upperSpecialF fuel ((b :: r).drop p.length)
+    | none => b :: upperSpecialF fuel r
+
+/-- replace the special characters by their expansions -/
+def upperSpecial (s : Bytes) : Bytes := upperSpecialF s.length s
 
 def upper (s : Bytes) : Bytes := (upperSpecial s).map upperAscii
 def lower (s : Bytes) : Bytes := s.map lowerAscii
@@ -442,6 +471,7 @@ def Arg.extract (a : Arg) (v : Bytes) : Except BErr Tok :=
     | .ok n => .ok (.n n)
     | .error _ => fail .notInt
 
+def aIntE (l : Lit) : Arg := { kind := .int, onErr := some l }
 def aStr : Arg := { kind := .str }
 def aSds : Arg := { kind := .sds }
 def aInt : Arg := { kind := .int }
@@ -475,6 +505,9 @@ def extractPairs (a b : Arg) : List Bytes → Except BErr (List Tok)
     let ts ← extractPairs a b vs
     pure (t :: u :: ts)
   | [_] => .error .unreachable
+
+/-- `a` and `b` are the same word up to ASCII letter case -/
+def caseVariant (a b : Bytes) : Bool := a.map upperAscii == b.map upperAscii
 
 /-! ## option scanning (`while i < elements.len() { match opt.as_str() { … } }`) -/
 
@@ -559,6 +592,54 @@ def takeFlags (flags : List Bytes) : List Bytes → List Bytes × List Bytes
       (kw a :: f, r)
     else ([], a :: rest)
 
+/-! ## keyword-case variants of argument lists -/
+
+/-- option tails that differ only in the letter case of the words the scan reads as keywords
+    (values must be identical) -/
+def optVariant (tbl : List OptSpec) : List Bytes → List Bytes → Bool
+  | [], [] => true
+  | a :: r, a' :: r' =>
+    caseVariant a a' &&
+    match findOpt tbl (kw a) 0 with
+    | none => optVariant tbl r r'
+    | some (_, o) =>
+      match o.vals with
+      | [] => optVariant tbl r r'
+      | [_] =>
+        match r, r' with
+        | v :: s, v' :: s' => v == v' && optVariant tbl s s'
+        | x, y => x == y
+      | [_, _] =>
+        match r, r' with
+        | v :: w :: s, v' :: w' :: s' => v == v' && w == w' && optVariant tbl s s'
+        | x, y => x == y
+      | _ => r == r'
+  | _, _ => false
+
+/-- leading flags up to case, the rest identical -/
+def flagsVariant (flags : List Bytes) : List Bytes → List Bytes → Bool
+  | [], [] => true
+  | a :: r, a' :: r' =>
+    if flags.contains (kw a) then caseVariant a a' && flagsVariant flags r r'
+    else a :: r == a' :: r'
+  | _, _ => false
+
+/-- every word up to case -/
+def wordsVariant : List Bytes → List Bytes → Bool
+  | [], [] => true
+  | a :: r, a' :: r' => caseVariant a a' && wordsVariant r r'
+  | _, _ => false
+
+/-- the first word up to case, the rest identical -/
+def headVariant : List Bytes → List Bytes → Bool
+  | [], [] => true
+  | a :: r, a' :: r' => caseVariant a a' && r == r'
+  | _, _ => false
+
+/-- the first `n` arguments identical, the tails related by `tail` -/
+def prefixV (n : Nat) (tail : List Bytes → List Bytes → Bool) (a b : List Bytes) : Bool :=
+  a.take n == b.take n && tail (a.drop n) (b.drop n)
+
 /-! ## table entries -/
 
 inductive Arity where
@@ -579,12 +660,23 @@ def Arity.ok : Arity → Nat → Bool
   | .evenAtLeast n, k => n ≤ k && k % 2 == 0
   | .oddAtLeast n, k => n ≤ k && k % 2 == 1
 
+/-- a body written as a function, with the relation "`a` and `b` differ only in the letter case
+    of words in keyword position" and the proof that the body cannot tell them apart -/
+structure CustomBody where
+  f : List Bytes → BRes
+  kwv : List Bytes → List Bytes → Bool
+  sound : ∀ a b, kwv a b = true → f a = f b
+
+/-- a body without keyword positions -/
+def CustomBody.plain (f : List Bytes → BRes) : CustomBody :=
+  ⟨f, fun a b => a == b, by intro a b h; simp at h; rw [h]⟩
+
 inductive Body where
   | const (ctor : Bytes)                                  -- arguments are not looked at
   | fixed (ctor : Bytes) (slots : List Arg)               -- exactly these slots
   | many (ctor : Bytes) (pre : List Arg) (each : Arg)     -- fixed slots, then a `Vec`
   | pairs (ctor : Bytes) (pre : List Arg) (a b : Arg)     -- fixed slots, then a `Vec` of pairs
-  | custom (f : List Bytes → BRes)
+  | custom (c : CustomBody)
 
 def Body.run : Body → List Bytes → BRes
   | .const c, _ => .ok ⟨c, []⟩
@@ -601,7 +693,12 @@ def Body.run : Body → List Bytes → BRes
     let rest := args.drop pre.length
     let us ← extractPairs a b rest
     pure ⟨c, ts ++ .len (rest.length / 2) :: us⟩
-  | .custom f, args => f args
+  | .custom c, args => c.f args
+
+/-- which argument lists are keyword-case variants of each other for a body -/
+def Body.variant : Body → List Bytes → List Bytes → Bool
+  | .custom c, a, b => a.length == b.length && c.kwv a b
+  | _, a, b => a == b
 
 structure Spec where
   name : Bytes
@@ -865,256 +962,8 @@ def aclLog : List Bytes → BRes
       | .error _ => .error (.lit .notInt)
   | _ => .error .unreachable
 
-end Bodies
+/-! ### the redis.call translator's own bodies -/
 
-/-! ## the command table (`from_resp`) -/
-
-open Bodies in
-def fixed (name ctor : String) (arityErr : Bytes) (slots : List Arg) : Spec :=
-  { name := s2b name, arity := .exact slots.length, arityErr := arityErr, body := .fixed (s2b ctor) slots }
-
-def req (name : String) (n : Nat) : Bytes :=
-  s2b name ++ s2b " requires " ++ s2b (toString n) ++ s2b (if n == 1 then " argument" else " arguments")
-
-def reqAtLeast (name : String) (n : Nat) : Bytes :=
-  s2b name ++ s2b " requires at least " ++ s2b (toString n) ++ s2b (if n == 1 then " argument" else " arguments")
-
-def const (name ctor : String) : Spec :=
-  { name := s2b name, arity := .any, arityErr := [], body := .const (s2b ctor) }
-
-def manySpec (name ctor : String) (min : Nat) (arityErr : Bytes) (pre : List Arg) (each : Arg) : Spec :=
-  { name := s2b name, arity := .atLeast min, arityErr := arityErr, body := .many (s2b ctor) pre each }
-
-def customSpec (name : String) (arity : Arity) (arityErr : Bytes) (f : List Bytes → BRes) : Spec :=
-  { name := s2b name, arity := arity, arityErr := arityErr, body := .custom f }
-
-/-- a top-level entry: a command, or a family of sub-commands with a fallback for unknown ones -/
-inductive Entry where
-  | cmd (s : Spec)
-  | family (name : Bytes) (arityErr : Bytes) (subs : List Spec)
-      (dflt : Bytes → List Bytes → Res)     -- normalised sub-command, arguments after it
-
-def Entry.name : Entry → Bytes
-  | .cmd s => s.name
-  | .family n _ _ _ => n
-
-open Bodies in
-def configSubs : List Spec :=
-  [ fixed "GET" "ConfigGet" (wrongArgs "config|get") [aStr],
-    fixed "SET" "ConfigSet" (wrongArgs "config|set") [aStr, aStr],
-    const "RESETSTAT" "ConfigResetStat" ]
-
-open Bodies in
-def aclSubs : List Spec :=
-  [ const "WHOAMI" "AclWhoami", const "LIST" "AclList", const "USERS" "AclUsers",
-    fixed "GETUSER" "AclGetUser" (s2b "ACL GETUSER requires 1 argument") [aStr],
-    manySpec "SETUSER" "AclSetUser" 1 (s2b "ACL SETUSER requires at least 1 argument") [aStr] aStr,
-    manySpec "DELUSER" "AclDelUser" 1 (s2b "ACL DELUSER requires at least 1 argument") [] aStr,
-    customSpec "CAT" .any [] (optStr (s2b "AclCat")),
-    customSpec "GENPASS" .any [] aclGenpass,
-    customSpec "DRYRUN" (.atLeast 2) (wrongArgs "acl|dryrun") aclDryrun,
-    customSpec "LOG" (.between 0 1) (wrongArgs "acl|log") aclLog ]
-
-def scriptSubs : List Spec :=
-  [ fixed "LOAD" "ScriptLoad" (s2b "SCRIPT LOAD requires 1 argument") [aStr],
-    manySpec "EXISTS" "ScriptExists" 1 (s2b "SCRIPT EXISTS requires at least 1 argument") [] aStr,
-    const "FLUSH" "ScriptFlush" ]
-
-def functionSubs : List Spec := [ const "FLUSH" "FunctionFlush" ]
-
-def clientSubs : List Spec :=
-  [ fixed "SETNAME" "ClientSetName" (wrongArgs "client|setname") [aStr],
-    const "GETNAME" "ClientGetName", const "ID" "ClientId", const "INFO" "ClientInfo" ]
-
-def objectSubs : List Spec :=
-  [ const "HELP" "ObjectHelp",
-    fixed "ENCODING" "ObjectEncoding" (wrongArgs "object|encoding") [aStr],
-    fixed "REFCOUNT" "ObjectRefCount" (wrongArgs "object|refcount") [aStr],
-    fixed "IDLETIME" "ObjectIdleTime" (wrongArgs "object|idletime") [aStr],
-    fixed "FREQ" "ObjectFreq" (wrongArgs "object|freq") [aStr] ]
-
-def debugSubs : List Spec :=
-  [ fixed "SLEEP" "DebugSleep" (wrongArgs "debug|sleep") [aFlt],
-    fixed "OBJECT" "DebugObject" (wrongArgs "debug|object") [aStr] ]
-
-/-- `Command::Unknown(format!("{fam} {sub}"))` -/
-def unknownSub (fam : String) (sub : Bytes) (_ : List Bytes) : Res :=
-  .ok ⟨s2b "Unknown", [.s (s2b fam ++ 32 :: sub)]⟩
-
-def debugDflt (sub : Bytes) (rest : List Bytes) : Res :=
-  match rest with
-  | [] => .ok ⟨s2b "DebugSet", [.s sub, .s []]⟩
-  | v :: _ => .ok ⟨s2b "DebugSet", [.s sub, .s (lossy v)]⟩
-
-open Bodies in
-def table : List Entry :=
-  [ .cmd (customSpec "PING" .any [] ping),
-    .cmd (const "INFO" "Info"), .cmd (const "TIME" "Time"), .cmd (const "DBSIZE" "DbSize"),
-    .family (s2b "CONFIG") (wrongArgs "config") configSubs
-      (fun sub _ => .error (.body (.fmt .configUnknown (lower sub)))),
-    .cmd (customSpec "SELECT" (.exact 1) (wrongArgs "select") select),
-    .cmd (fixed "ECHO" "Echo" (wrongArgs "echo") [aSds]),
-    .cmd (customSpec "AUTH" (.between 1 2) (s2b "AUTH requires 1 or 2 arguments") auth),
-    .family (s2b "ACL") (s2b "ACL requires a subcommand") aclSubs
-      (fun sub _ => .error (.body (.fmt .unknownAcl sub))),
-    .cmd (const "FLUSHDB" "FlushDb"), .cmd (const "FLUSHALL" "FlushAll"),
-    .cmd (const "MULTI" "Multi"), .cmd (const "EXEC" "Exec"), .cmd (const "DISCARD" "Discard"),
-    .cmd (manySpec "WATCH" "Watch" 1 (reqAtLeast "WATCH" 1) [] aStr),
-    .cmd (const "UNWATCH" "Unwatch"),
-    .cmd (customSpec "EVAL" (.atLeast 2) (reqAtLeast "EVAL" 2) (eval (s2b "Eval") .evalKeys)),
-    .cmd (customSpec "EVALSHA" (.atLeast 2) (reqAtLeast "EVALSHA" 2) (eval (s2b "EvalSha") .evalshaKeys)),
-    .family (s2b "SCRIPT") (s2b "SCRIPT requires a subcommand") scriptSubs
-      (fun sub _ => .error (.body (.fmt .unknownScript sub))),
-    .cmd (fixed "GET" "Get" (wrongArgs "get") [aStr]),
-    .cmd (customSpec "SET" (.atLeast 2) (reqAtLeast "SET" 2) set),
-    .cmd (customSpec "SETEX" (.exact 3) (req "SETEX" 3) (setex false)),
-    .cmd (fixed "SETNX" "SetNx" (req "SETNX" 2) [aStr, aSds]),
-    .cmd (manySpec "DEL" "Del" 1 (reqAtLeast "DEL" 1) [] aStr),
-    .cmd (manySpec "EXISTS" "Exists" 1 (reqAtLeast "EXISTS" 1) [] aStr),
-    .cmd (fixed "TYPE" "TypeOf" (req "TYPE" 1) [aStr]),
-    .cmd (fixed "KEYS" "Keys" (req "KEYS" 1) [aStr]),
-    .cmd (customSpec "EXPIRE" (.atLeast 2) (reqAtLeast "EXPIRE" 2) (expire (s2b "Expire"))),
-    .cmd (customSpec "PEXPIRE" (.atLeast 2) (reqAtLeast "PEXPIRE" 2) (expire (s2b "PExpire"))),
-    .cmd (fixed "EXPIREAT" "ExpireAt" (req "EXPIREAT" 2) [aStr, aInt]),
-    .cmd (fixed "PEXPIREAT" "PExpireAt" (req "PEXPIREAT" 2) [aStr, aInt]),
-    .cmd (fixed "TTL" "Ttl" (req "TTL" 1) [aStr]),
-    .cmd (fixed "PTTL" "Pttl" (req "PTTL" 1) [aStr]),
-    .cmd (fixed "PERSIST" "Persist" (req "PERSIST" 1) [aStr]),
-    .cmd (fixed "INCR" "Incr" (wrongArgs "incr") [aStr]),
-    .cmd (fixed "DECR" "Decr" (wrongArgs "decr") [aStr]),
-    .cmd (fixed "INCRBY" "IncrBy" (wrongArgs "incrby") [aStr, aInt]),
-    .cmd (fixed "DECRBY" "DecrBy" (wrongArgs "decrby") [aStr, aInt]),
-    .cmd (fixed "APPEND" "Append" (req "APPEND" 2) [aStr, aSds]),
-    .cmd (fixed "GETSET" "GetSet" (req "GETSET" 2) [aStr, aSds]),
-    .cmd (fixed "STRLEN" "StrLen" (req "STRLEN" 1) [aStr]),
-    .cmd (manySpec "MGET" "MGet" 1 (reqAtLeast "MGET" 1) [] aStr),
-    .cmd { name := s2b "MSET", arity := .evenAtLeast 2, arityErr := wrongArgs "mset", body := .pairs (s2b "MSet") [] aStr aSds },
-    .cmd { name := s2b "MSETNX", arity := .evenAtLeast 2, arityErr := wrongArgs "msetnx", body := .pairs (s2b "MSetNx") [] aStr aSds },
-    .cmd (manySpec "LPUSH" "LPush" 2 (reqAtLeast "LPUSH" 2) [aStr] aSds),
-    .cmd (manySpec "RPUSH" "RPush" 2 (reqAtLeast "RPUSH" 2) [aStr] aSds),
-    .cmd (fixed "LPOP" "LPop" (req "LPOP" 1) [aStr]),
-    .cmd (fixed "RPOP" "RPop" (req "RPOP" 1) [aStr]),
-    .cmd (fixed "LRANGE" "LRange" (req "LRANGE" 3) [aStr, aInt, aInt]),
-    .cmd (fixed "LLEN" "LLen" (req "LLEN" 1) [aStr]),
-    .cmd (fixed "LINDEX" "LIndex" (req "LINDEX" 2) [aStr, aInt]),
-    .cmd (fixed "LSET" "LSet" (req "LSET" 3) [aStr, aInt, aSds]),
-    .cmd (fixed "LTRIM" "LTrim" (req "LTRIM" 3) [aStr, aInt, aInt]),
-    .cmd (fixed "RPOPLPUSH" "RPopLPush" (req "RPOPLPUSH" 2) [aStr, aStr]),
-    .cmd (customSpec "LMOVE" (.exact 4) (req "LMOVE" 4) lmove),
-    .cmd (manySpec "SADD" "SAdd" 2 (reqAtLeast "SADD" 2) [aStr] aSds),
-    .cmd (fixed "SMEMBERS" "SMembers" (req "SMEMBERS" 1) [aStr]),
-    .cmd (fixed "SISMEMBER" "SIsMember" (req "SISMEMBER" 2) [aStr, aSds]),
-    .cmd (manySpec "SREM" "SRem" 2 (reqAtLeast "SREM" 2) [aStr] aSds),
-    .cmd (fixed "SCARD" "SCard" (req "SCARD" 1) [aStr]),
-    .cmd (customSpec "SPOP" (.between 1 2) (s2b "SPOP requires 1 or 2 arguments") spop),
-    .cmd { name := s2b "HSET", arity := .oddAtLeast 3, arityErr := s2b "HSET requires key and field-value pairs", body := .pairs (s2b "HSet") [aStr] aSds aSds },
-    .cmd (fixed "HGET" "HGet" (req "HGET" 2) [aStr, aSds]),
-    .cmd (fixed "HGETALL" "HGetAll" (req "HGETALL" 1) [aStr]),
-    .cmd (fixed "HINCRBY" "HIncrBy" (req "HINCRBY" 3) [aStr, aSds, aInt]),
-    .cmd (manySpec "HDEL" "HDel" 2 (reqAtLeast "HDEL" 2) [aStr] aSds),
-    .cmd (fixed "HKEYS" "HKeys" (req "HKEYS" 1) [aStr]),
-    .cmd (fixed "HVALS" "HVals" (req "HVALS" 1) [aStr]),
-    .cmd (fixed "HLEN" "HLen" (req "HLEN" 1) [aStr]),
-    .cmd (fixed "HEXISTS" "HExists" (req "HEXISTS" 2) [aStr, aSds]),
-    .cmd (customSpec "ZADD" (.atLeast 3) (s2b "ZADD requires key and score-member pairs") (zadd aFlt)),
-    .cmd (customSpec "ZRANGE" (.between 3 4) (s2b "ZRANGE requires 3 or 4 arguments") (zrange (s2b "ZRange"))),
-    .cmd (customSpec "ZREVRANGE" (.between 3 4) (s2b "ZREVRANGE requires 3 or 4 arguments") (zrange (s2b "ZRevRange"))),
-    .cmd (fixed "ZSCORE" "ZScore" (req "ZSCORE" 2) [aStr, aSds]),
-    .cmd (manySpec "ZREM" "ZRem" 2 (reqAtLeast "ZREM" 2) [aStr] aSds),
-    .cmd (fixed "ZRANK" "ZRank" (req "ZRANK" 2) [aStr, aSds]),
-    .cmd (fixed "ZCARD" "ZCard" (req "ZCARD" 1) [aStr]),
-    .cmd (fixed "ZCOUNT" "ZCount" (req "ZCOUNT" 3) [aStr, aStr, aStr]),
-    .cmd (customSpec "ZRANGEBYSCORE" (.atLeast 3) (reqAtLeast "ZRANGEBYSCORE" 3)
-            (zrangebyscore aInt aInt .limitMissing .unknownZrbs)),
-    .cmd (customSpec "SCAN" (.atLeast 1) (reqAtLeast "SCAN" 1) (scan (s2b "Scan") false .unknownScan)),
-    .cmd (customSpec "HSCAN" (.atLeast 2) (reqAtLeast "HSCAN" 2) (scan (s2b "HScan") true .unknownHscan)),
-    .cmd (customSpec "ZSCAN" (.atLeast 2) (reqAtLeast "ZSCAN" 2) (scan (s2b "ZScan") true .unknownZscan)),
-    .family (s2b "FUNCTION") (wrongArgs "function") functionSubs (unknownSub "FUNCTION"),
-    .cmd (customSpec "COMMAND" .any [] command),
-    .family (s2b "CLIENT") (wrongArgs "client") clientSubs (unknownSub "CLIENT"),
-    .family (s2b "OBJECT") (wrongArgs "object") objectSubs (unknownSub "OBJECT"),
-    .family (s2b "DEBUG") (wrongArgs "debug") debugSubs debugDflt,
-    .cmd (fixed "GETRANGE" "GetRange" (req "GETRANGE" 3) [aStr, aInt, aInt]),
-    .cmd (fixed "SUBSTR" "GetRange" (req "GETRANGE" 3) [aStr, aInt, aInt]),
-    .cmd (customSpec "SETRANGE" (.exact 3) (req "SETRANGE" 3) setrange),
-    .cmd (customSpec "SETBIT" (.exact 3) (wrongArgs "setbit") setbit),
-    .cmd (customSpec "GETBIT" (.exact 2) (wrongArgs "getbit") getbit),
-    .cmd (customSpec "GETEX" (.atLeast 1) (wrongArgs "getex") getex),
-    .cmd (fixed "GETDEL" "GetDel" (req "GETDEL" 1) [aStr]),
-    .cmd (customSpec "INCRBYFLOAT" (.exact 2) (wrongArgs "incrbyfloat") incrbyfloat),
-    .cmd (customSpec "PSETEX" (.exact 3) (req "PSETEX" 3) (setex true)),
-    .cmd (fixed "EXPIRETIME" "ExpireTime" (req "EXPIRETIME" 1) [aStr]),
-    .cmd (fixed "PEXPIRETIME" "PExpireTime" (req "PEXPIRETIME" 1) [aStr]),
-    .cmd (manySpec "UNLINK" "Del" 1 (reqAtLeast "UNLINK" 1) [] aStr),
-    .cmd (fixed "WAIT" "Wait" (req "WAIT" 2) [aInt, aInt]),
-    .cmd (customSpec "SORT" (.atLeast 1) (wrongArgs "sort") sort),
-    .cmd (const "RANDOMKEY" "RandomKey"),
-    .cmd (fixed "RENAME" "Rename" (wrongArgs "rename") [aStr, aStr]),
-    .cmd (fixed "RENAMENX" "RenameNx" (wrongArgs "renamenx") [aStr, aStr]) ]
-
-def findEntry : List Entry → Bytes → Option Entry
-  | [], _ => none
-  | e :: es, k => if e.name = k then some e else findEntry es k
-
-def findSpec : List Spec → Bytes → Option Spec
-  | [], _ => none
-  | s :: ss, k => if s.name = k then some s else findSpec ss k
-
-/-- dispatch over a table: normalise the name, look it up, arity test, body -/
-def parseWith (tbl : List Entry) : List Bytes → Res
-  | [] => .error (.body (.lit .invalidFormat))
-  | name :: args =>
-    match findEntry tbl (kw name) with
-    | none => .ok ⟨s2b "Unknown", [.s (kw name)]⟩
-    | some (.cmd s) => s.run args
-    | some (.family _ aerr subs dflt) =>
-      match args with
-      | [] => .error (.arity aerr)
-      | sub :: rest =>
-        match findSpec subs (kw sub) with
-        | some s => s.run rest
-        | none => dflt (kw sub) rest
-
-/-- `Command::from_resp` on an array of bulk strings -/
-def parseCmd : List Bytes → Res := parseWith table
-
-/-! ## what `from_resp_zero_copy` does differently (findings of C16) -/
-
-/-- arity error texts that differ in the zero-copy parser -/
-def zcArityErr : List (Bytes × Bytes) :=
-  [ (s2b "LPUSH", s2b "LPUSH requires key and values"),
-    (s2b "RPUSH", s2b "RPUSH requires key and values"),
-    (s2b "SADD", s2b "SADD requires key and members") ]
-
-/-- ACL sub-commands only the zero-copy parser knows (answered `Unknown("ACL <sub>")`) -/
-def zcAclStubs : List Bytes := [s2b "HELP", s2b "LOAD", s2b "SAVE"]
-
-/-- `Command::from_resp_zero_copy` expressed as the differences to `parseCmd` -/
-def parseCmdZc (frame : List Bytes) : Res :=
-  match frame with
-  | [] => parseCmd frame
-  | name :: args =>
-    let stub : Option Bytes := match args with
-      | sub :: _ => if kw name = s2b "ACL" ∧ zcAclStubs.contains (kw sub) then some (kw sub) else none
-      | [] => none
-    match stub with
-    | some sub => .ok ⟨s2b "Unknown", [.s (s2b "ACL " ++ sub)]⟩
-    | none =>
-      match parseCmd frame with
-      | .error (.arity t) =>
-        match zcArityErr.lookup (kw name) with
-        | some t' => .error (.arity t')
-        | none => .error (.arity t)
-      | r => r
-
-/-! ## the redis.call / redis.pcall translator (`parse_lua_command_bytes`) -/
-
-def luaKey (name : String) (ctor : String) : Spec :=
-  fixed name ctor (req name 1) [aStr]
-
-def aIntE (l : Lit) : Arg := { kind := .int, onErr := some l }
-
-namespace Bodies
 
 def luaSetOpts : List OptSpec :=
   [ { kw := s2b "NX" }, { kw := s2b "XX" }, { kw := s2b "GET" },
@@ -1140,117 +989,82 @@ def luaZrange : List Bytes → BRes
     .ok ⟨s2b "ZRange", .s (lossy k) :: ts ++ [bFalse]⟩
   | _ => .error .unreachable
 
+
 end Bodies
 
-open Bodies in
-def luaTable : List Entry :=
-  [ .cmd (luaKey "GET" "Get"),
-    .cmd (customSpec "SET" (.atLeast 2) (reqAtLeast "SET" 2) luaSet),
-    .cmd (manySpec "DEL" "Del" 1 (reqAtLeast "DEL" 1) [] aStr),
-    .cmd (luaKey "INCR" "Incr"), .cmd (luaKey "DECR" "Decr"),
-    .cmd (fixed "INCRBY" "IncrBy" (req "INCRBY" 2) [aStr, aIntE .luaIncrbyInt]),
-    .cmd (fixed "HGET" "HGet" (req "HGET" 2) [aStr, aSds]),
-    .cmd { name := s2b "HSET", arity := .oddAtLeast 3, arityErr := s2b "HSET requires key and field-value pairs", body := .pairs (s2b "HSet") [aStr] aSds aSds },
-    .cmd (manySpec "HDEL" "HDel" 2 (s2b "HDEL requires key and at least 1 field") [aStr] aSds),
-    .cmd (manySpec "LPUSH" "LPush" 2 (s2b "LPUSH requires key and at least 1 value") [aStr] aSds),
-    .cmd (manySpec "RPUSH" "RPush" 2 (s2b "RPUSH requires key and at least 1 value") [aStr] aSds),
-    .cmd (luaKey "LPOP" "LPop"), .cmd (luaKey "RPOP" "RPop"), .cmd (luaKey "LLEN" "LLen"),
-    .cmd (manySpec "SADD" "SAdd" 2 (s2b "SADD requires key and at least 1 member") [aStr] aSds),
-    .cmd (manySpec "SREM" "SRem" 2 (s2b "SREM requires key and at least 1 member") [aStr] aSds),
-    .cmd (luaKey "SMEMBERS" "SMembers"),
-    .cmd (manySpec "EXISTS" "Exists" 1 (reqAtLeast "EXISTS" 1) [] aStr),
-    .cmd (customSpec "EXPIRE" (.exact 2) (req "EXPIRE" 2) luaExpire),
-    .cmd (luaKey "TTL" "Ttl"), .cmd (luaKey "TYPE" "TypeOf"),
-    .cmd (fixed "HINCRBY" "HIncrBy" (req "HINCRBY" 3) [aStr, aSds, aIntE .luaHincrbyInt]),
-    .cmd (fixed "LRANGE" "LRange" (req "LRANGE" 3) [aStr, aIntE .luaLrangeStart, aIntE .luaLrangeStop]),
-    .cmd (fixed "RPOPLPUSH" "RPopLPush" (req "RPOPLPUSH" 2) [aStr, aStr]),
-    .cmd (customSpec "LMOVE" (.exact 4) (req "LMOVE" 4) lmove),
-    .cmd (luaKey "HGETALL" "HGetAll"),
-    .cmd (fixed "SISMEMBER" "SIsMember" (req "SISMEMBER" 2) [aStr, aSds]),
-    .cmd (customSpec "ZADD" (.atLeast 3) (s2b "ZADD requires key and score-member pairs")
-            (zadd { kind := .flt, onErr := some .luaZaddScore })),
-    .cmd (manySpec "ZREM" "ZRem" 2 (s2b "ZREM requires key and at least 1 member") [aStr] aSds),
-    .cmd (customSpec "ZRANGE" (.exact 3) (req "ZRANGE" 3) luaZrange),
-    .cmd (fixed "ZSCORE" "ZScore" (req "ZSCORE" 2) [aStr, aSds]),
-    .cmd (luaKey "ZCARD" "ZCard"),
-    .cmd (fixed "ZCOUNT" "ZCount" (req "ZCOUNT" 3) [aStr, aStr, aStr]),
-    .cmd (customSpec "ZRANGEBYSCORE" (.atLeast 3) (reqAtLeast "ZRANGEBYSCORE" 3)
-            (zrangebyscore (aIntE .luaLimitOffset) { kind := .usz, onErr := some .luaLimitCount }
-              .luaLimitMissing .unknownZrbs)) ]
+/-! ## the command table (`from_resp`) -/
 
-/-- `parse_lua_command_bytes`: a name the translator does not list is an error -/
-def parseLua : List Bytes → Res
-  | [] => .error (.body (.lit .luaEmpty))
+open Bodies in
+def fixed (name ctor : String) (arityErr : Bytes) (slots : List Arg) : Spec :=
+  { name := s2b name, arity := .exact slots.length, arityErr := arityErr, body := .fixed (s2b ctor) slots }
+
+def req (name : String) (n : Nat) : Bytes :=
+  s2b name ++ s2b " requires " ++ s2b (toString n) ++ s2b (if n == 1 then " argument" else " arguments")
+
+def reqAtLeast (name : String) (n : Nat) : Bytes :=
+  s2b name ++ s2b " requires at least " ++ s2b (toString n) ++ s2b (if n == 1 then " argument" else " arguments")
+
+def const (name ctor : String) : Spec :=
+  { name := s2b name, arity := .any, arityErr := [], body := .const (s2b ctor) }
+
+def manySpec (name ctor : String) (min : Nat) (arityErr : Bytes) (pre : List Arg) (each : Arg) : Spec :=
+  { name := s2b name, arity := .atLeast min, arityErr := arityErr, body := .many (s2b ctor) pre each }
+
+def customSpec (name : String) (arity : Arity) (arityErr : Bytes) (c : CustomBody) : Spec :=
+  { name := s2b name, arity := arity, arityErr := arityErr, body := .custom c }
+
+/-- a top-level entry: a command, or a family of sub-commands with a fallback for unknown ones -/
+inductive Entry where
+  | cmd (s : Spec)
+  | family (name : Bytes) (arityErr : Bytes) (subs : List Spec)
+      (dflt : Bytes → List Bytes → Res)     -- normalised sub-command, arguments after it
+
+def Entry.name : Entry → Bytes
+  | .cmd s => s.name
+  | .family n _ _ _ => n
+
+def findEntry : List Entry → Bytes → Option Entry
+  | [], _ => none
+  | e :: es, k => if e.name = k then some e else findEntry es k
+
+def findSpec : List Spec → Bytes → Option Spec
+  | [], _ => none
+  | s :: ss, k => if s.name = k then some s else findSpec ss k
+
+/-- dispatch over a table: normalise the name, look it up, arity test, body -/
+def parseWith (tbl : List Entry) : List Bytes → Res
+  | [] => .error (.body (.lit .invalidFormat))
   | name :: args =>
-    match findEntry luaTable (kw name) with
-    | none => .error (.body (.fmt .luaUnknownCmd (kw name)))
-    | some _ => parseWith luaTable (name :: args)
+    match findEntry tbl (kw name) with
+    | none => .ok ⟨s2b "Unknown", [.s (kw name)]⟩
+    | some (.cmd s) => s.run args
+    | some (.family _ aerr subs dflt) =>
+      match args with
+      | [] => .error (.arity aerr)
+      | sub :: rest =>
+        match findSpec subs (kw sub) with
+        | some s => s.run rest
+        | none => dflt (kw sub) rest
+
+
+/-- frames that differ only in the letter case of the command name, of the sub-command name and
+    of the words the command's body reads as keywords -/
+def frameVariant (tbl : List Entry) : List Bytes → List Bytes → Bool
+  | [], [] => true
+  | n :: args, n' :: args' =>
+    caseVariant n n' &&
+    match findEntry tbl (kw n) with
+    | none => true
+    | some (.cmd s) => s.body.variant args args'
+    | some (.family _ _ subs _) =>
+      match args, args' with
+      | [], [] => true
+      | sub :: r, sub' :: r' =>
+        caseVariant sub sub' &&
+        match findSpec subs (kw sub) with
+        | some s => s.body.variant r r'
+        | none => r == r'
+      | _, _ => false
+  | _, _ => false
 
 end RedisVerif.Grammar
-
-/-! ## RESP ↔ Lua value conversion (`resp_to_lua_value`, `lua_to_resp`) -/
-namespace RedisVerif.LuaConv
-open RedisVerif.Grammar
-
-/-- `RespValue` -/
-inductive Resp where
-  | simple (s : Bytes)
-  | error (s : Bytes)
-  | int (i : Int)
-  | bulk (b : Option Bytes)
-  | array (xs : Option (List Resp))
-
-/-- the Lua values the conversion functions produce or inspect.  `okT s` / `errT s` are the
-    tables `{ok = s}` / `{err = s}`; `arr xs` is a table with `t[i+1] = xs[i]` (a `nil` element
-    is a hole); `num i` is a Lua float with the integral value `i` (|i| < 2^53). -/
-inductive LuaVal where
-  | nil
-  | bool (b : Bool)
-  | int (i : Int)
-  | num (i : Int)
-  | str (b : Bytes)
-  | okT (s : Bytes)
-  | errT (s : Bytes)
-  | arr (xs : List LuaVal)
-
-mutual
-/-- `resp_to_lua_value` -/
-def respToLua : Resp → LuaVal
-  | .simple s => .okT s
-  | .error s => .errT s
-  | .int i => .int i
-  | .bulk (some b) => .str b
-  | .bulk none => .nil            -- Redis: `false`
-  | .array none => .nil           -- Redis: `false`
-  | .array (some xs) => .arr (respToLuaL xs)
-def respToLuaL : List Resp → List LuaVal
-  | [] => []
-  | x :: xs => respToLua x :: respToLuaL xs
-end
-
-def validUtf8 (s : Bytes) : Bool := lossy s == s
-
-/-- `f64::to_string` of an integral float -/
-def intText (i : Int) : Bytes := s2b (toString i)
-
-mutual
-/-- `lua_to_resp`.  A table is an error / status reply if `t.get::<String>("err" / "ok")`
-    succeeds (the field must be valid UTF-8), otherwise the array `t[1], t[2], …` up to the
-    first `nil`. -/
-def luaToResp : LuaVal → Resp
-  | .nil => .bulk none
-  | .bool true => .int 1
-  | .bool false => .bulk none
-  | .int i => .int i
-  | .num i => .bulk (some (intText i))     -- Redis: integer (truncated)
-  | .str b => .bulk (some b)
-  | .okT s => if validUtf8 s then .simple s else .array (some [])
-  | .errT s => if validUtf8 s then .error s else .array (some [])
-  | .arr xs => .array (some (luaToRespL xs))
-def luaToRespL : List LuaVal → List Resp
-  | [] => []
-  | .nil :: _ => []                        -- the array ends at the first nil
-  | x :: xs => luaToResp x :: luaToRespL xs
-end
-
-end RedisVerif.LuaConv
